@@ -5,7 +5,7 @@
 # against /repo with the change applied, and stores everything under /verif/seeded.
 export GOFLAGS=-mod=mod GOPROXY=off GOSUMDB=off GOTOOLCHAIN=local
 prop=$1; n=$2; dir=$3; re=$4; tier=${5:-quick}
-wt=/tmp/wt-$prop; m=$wt/MUTANT_$n; out=/verif/seeded/$prop-$n
+wt=${WTPREFIX:-/tmp/wt-}$prop; m=$wt/MUTANT_$n; out=/verif/seeded/$prop-${SEEDTAG:-}$n
 mkdir -p $out
 cd $wt || exit 2
 git checkout -q -- . ; git apply --check $m/patch.diff || { echo "patch does not apply"; exit 2; }
